@@ -658,12 +658,12 @@ fn quotient_at(f: &MvPoly, z: &[Fr], betas: &[Fr], i: usize) -> Option<Fr> {
     Some((f.evaluate(&a) - f.evaluate(&b)) * den)
 }
 
-fn trapdoor_case(ctx: &mut Ctx, i: usize) {
-    let id = format!("C15/pst13/{}", i);
+fn trapdoor_case(ctx: &mut Ctx, tag: &str, i: usize) {
+    let id = format!("{}/pst13/{}", tag, i);
     if !ctx.selected(&id) {
         return;
     }
-    let mut rng = rng_for(ctx.seed, "C15/pst13", i as u64);
+    let mut rng = rng_for(ctx.seed, &format!("{}/pst13", tag), i as u64);
     let (max_nv, max_d) = if ctx.thorough { (5, 5) } else { (3, 4) };
     let nv = if range(&mut rng, 0, 5) == 0 { 1 } else { range(&mut rng, 2, max_nv) };
     let d = if range(&mut rng, 0, 5) == 0 { 1 } else { range(&mut rng, 2, max_d) };
@@ -987,112 +987,333 @@ fn refusal_case(ctx: &mut Ctx, i: usize) {
     ctx.rep.case(&format!("pst13 refusal {} nv={} D={} s={}", what, nv, d, s), None);
 }
 
-/// Boundary probe (correspondence only, no expectation attached): a polynomial whose declared
-/// `num_vars` is smaller than the key's.  `open` then returns `p.num_vars()` witnesses and, with
-/// hiding, silently drops the hiding witnesses of the remaining variables; the model follows the
-/// code (`nvp < nvr`).  The decisions are compared with the model and recorded as a note.
-fn fewer_vars_probe(ctx: &mut Ctx, i: usize) {
-    let id = format!("C15/pst13-fewer-vars/{}", i);
-    let mut rng = rng_for(ctx.seed, "C15/pst13-fewer-vars", i as u64);
-    let nv = range(&mut rng, 2, 3);
-    let nvp = range(&mut rng, 0, nv - 1);
-    let d = range(&mut rng, 1, 3);
-    let s = d;
-    let trap = Trap::random(&mut rng, nv, d);
+// ------------------------------------------------------------------------------------------------
+// batches through `batch_open` / `check` / `batch_check` (C01, C02, C05, and the
+// fewer-declared-variables cases of C15)
+// ------------------------------------------------------------------------------------------------
+
+#[derive(Clone, Copy, PartialEq, Eq, Debug)]
+enum Declared {
+    /// every polynomial declared over the key's variables
+    Full,
+    /// every polynomial declared over 0..nv-1 variables (0: the zero polynomial)
+    Fewer,
+}
+
+/// One batch: `npoly` committed polynomials, `npoints` point labels each querying a non-empty subset,
+/// the values at the positions in `false_at` (indices into the sorted query list) moved by a
+/// non-zero delta.  Runs `batch_open`, the individual `check`s on the running sponge (so each sees
+/// the challenges it sees inside the batch), and `batch_check`; compares all three with the model
+/// and with the expectations: all-true => accepted, some false => rejected, batch == AND(checks).
+fn batch_case(ctx: &mut Ctx, id: &str, rng: &mut Rng, declared: Declared, n_false: usize, single: bool) {
+    if !ctx.selected(id) {
+        return;
+    }
+    let (max_nv, max_d) = if ctx.thorough { (4, 4) } else { (3, 3) };
+    let nv = match declared {
+        Declared::Fewer => range(rng, 2, max_nv),
+        Declared::Full => range(rng, 1, max_nv),
+    };
+    let d = range(rng, 1, max_d);
+    let s = if coin(rng) { d } else { range(rng, 1, d) };
+    let trap = Trap::random(rng, nv, d);
     let pp = trap.params();
+    let head = format!("{}# supported_degree={} case={} seed={}\n", trap.desc(), s, id, ctx.seed);
+    let fail_sig = |what: &str| -> String {
+        if declared == Declared::Fewer {
+            "pst13/fewer-declared-variables".to_string()
+        } else {
+            format!("pst13/{}", what)
+        }
+    };
     let (ck, vk): (CK, VK) = match guarded(|| PC::trim(&pp, s, 0, None)) {
         Ok(Ok(x)) => x,
         _ => return,
     };
-    let p = if nvp == 0 {
-        <MvPoly as Zero>::zero()
-    } else {
-        let (q, _) = gen_poly(&mut rng, nvp, s);
-        MvPoly::from_coefficients_vec(nvp, q.terms().to_vec())
-    };
-    let hb = if i % 2 == 0 { Some(range(&mut rng, 1, s)) } else { None };
-    let lp = LabeledPolynomial::new("p".to_string(), p.clone(), None, hb);
-    let (comms, states): (Vec<LabeledCommitment<Comm>>, Vec<Rand>) =
-        match guarded(|| PC::commit(&ck, [&lp], Some(&mut rng))) {
-            Ok(Ok(x)) => x,
-            _ => return,
-        };
-    let z: Vec<Fr> = (0..nv).map(|_| Fr::rand(&mut rng)).collect();
-    let mut sponge = fresh();
-    sponge.absorb_seed(1000 + i as u64);
-    let vsponge = sponge.clone();
-    let out = guarded(|| PC::open(&ck, [&lp], comms.iter(), &z, &mut sponge, states.iter(), None));
-    let xis = sponge.challenges();
-    let blind = states[0].blinding_polynomial.clone();
-    let req = trap
-        .key_args(Req::new("c15.open"), s)
-        .arg("nvp", wire::nat(p.num_vars()))
-        .arg("nvr", wire::nat(blind.num_vars()))
-        .arg("ps", polys_val(&[p.clone()]))
-        .arg("z", wire::fes(&z))
-        .arg("rs", polys_val(&[blind.clone()]))
-        .arg("xis", wire::fes(&xis));
-    let proof = match out {
-        Ok(Ok(pr)) => {
-            ctx.ses.ask(
-                &format!("{}/open", id),
-                req,
-                ImplOutcome::Ok(vec![
-                    ("w".into(), Expect::G1s(pr.w.clone())),
-                    ("rv".into(), Expect::OptFe(pr.random_v)),
-                ]),
-            );
-            pr
-        }
-        Ok(Err(e)) => {
-            ctx.ses.ask(&format!("{}/open", id), req, ImplOutcome::Refuse(err_kind(&e)));
-            return;
-        }
-        Err(a) => {
-            ctx.ses.ask(&format!("{}/open", id), req, ImplOutcome::Refuse(a));
-            return;
-        }
-    };
-    let v = p.evaluate(&z);
-    let (o, vx) = check_impl(&vk, &comms, &z, &[v], &proof, &vsponge);
-    let cs = trap.g * p.evaluate(&trap.betas) + trap.gamma * blind.evaluate(&trap.betas);
-    let mut ws = vec![];
-    let mut ok = xis.len() == 1 && g1(cs) == comms[0].commitment().comm.0;
-    if ok {
-        for k in 0..proof.w.len() {
-            match (quotient_at(&p, &z, &trap.betas, k), quotient_at(&blind, &z, &trap.betas, k)) {
-                (Some(a), Some(b)) => ws.push(xis[0] * (trap.g * a + trap.gamma * b)),
-                _ => ok = false,
+    let npoly = if single { 1 } else { range(rng, 1, 4) };
+    let npoints = if single { 1 } else { range(rng, 1, 3) };
+    let mut polys: Vec<LabeledPolynomial<Fr, MvPoly>> = vec![];
+    let mut hbs = vec![];
+    let mut decl = vec![];
+    for j in 0..npoly {
+        let deg = if coin(rng) { s } else { range(rng, 0, s) };
+        let p = match declared {
+            Declared::Full => gen_poly(rng, nv, deg).0,
+            Declared::Fewer => {
+                let nvp = range(rng, 0, nv - 1);
+                if nvp == 0 {
+                    <MvPoly as Zero>::zero()
+                } else {
+                    let (q, _) = gen_poly(rng, nvp, deg);
+                    MvPoly::from_coefficients_vec(nvp, q.terms().to_vec())
+                }
             }
-        }
-        ok = ok && ws.iter().zip(proof.w.iter()).all(|(s, w)| g1(*s) == *w);
+        };
+        let hb = if coin(rng) { Some(range(rng, 1, s)) } else { None };
+        decl.push(p.num_vars());
+        hbs.push(hb);
+        polys.push(LabeledPolynomial::new(format!("p{}", j), p, None, hb));
     }
-    if ok {
-        ctx.ses.ask(
-            &format!("{}/check", id),
-            trap.key_args(Req::new("c15.check"), s)
-                .arg("cs", wire::fes(&[cs]))
-                .arg("z", wire::fes(&z))
-                .arg("vs", wire::fes(&[v]))
-                .arg("w", wire::fes(&ws))
-                .arg("rv", wire::opt_fe(&proof.random_v))
-                .arg("xis", wire::fes(&vx)),
-            o.clone(),
-        );
-    }
-    let key = format!(
-        "fewer-vars/hiding-{}/{}",
-        hb.is_some(),
-        if accepted(&o) { "accepted" } else { "not-accepted" }
+    let desc = format!(
+        "pst13 batch nv={} D={} s={} polys={} declared={:?} hiding={:?} points={} false={}",
+        nv, d, s, npoly, decl, hbs.iter().map(|h| h.is_some()).collect::<Vec<_>>(), npoints, n_false
     );
-    ctx.rep.count(&key);
-    if !accepted(&o) {
-        let note = "boundary (not counted as a violation): a polynomial declared with fewer variables than the key, committed with hiding, opens to a proof its own verifier rejects (hiding witnesses of the undeclared variables are dropped); model agrees".to_string();
-        if !ctx.rep.notes.contains(&note) {
-            ctx.rep.notes.push(note);
+    let ptxt = format!(
+        "{}# polynomials: {}\n# declared num_vars: {:?}\n# hiding bounds: {:?}\n",
+        head,
+        polys_val(&polys.iter().map(|p| p.polynomial().clone()).collect::<Vec<_>>()),
+        decl,
+        hbs
+    );
+    let (comms, states): (Vec<LabeledCommitment<Comm>>, Vec<Rand>) =
+        match guarded(|| PC::commit(&ck, polys.iter(), Some(&mut *rng))) {
+            Ok(Ok(x)) => x,
+            other => {
+                ctx.rep.expect_fail(id, &fail_sig("commit-refused"), &format!("commit refused an in-domain polynomial: {:?}", other.err().or(Some("Err".into()))), ptxt);
+                ctx.rep.case(&desc, None);
+                return;
+            }
+        };
+    let plain: Vec<MvPoly> = polys.iter().map(|p| p.polynomial().clone()).collect();
+    let blinds: Vec<MvPoly> = states.iter().map(|s| s.blinding_polynomial.clone()).collect();
+    let c_scalars: Vec<Fr> = (0..npoly)
+        .map(|j| trap.g * plain[j].evaluate(&trap.betas) + trap.gamma * blinds[j].evaluate(&trap.betas))
+        .collect();
+    if (0..npoly).any(|j| g1(c_scalars[j]) != comms[j].commitment().comm.0) {
+        ctx.rep.expect_fail(id, "pst13/commitment-not-key-defined", "commitment != g·p(beta) + gamma·r(beta)", ptxt);
+        ctx.rep.case(&desc, None);
+        return;
+    }
+    // the query set: point label k -> (point, sorted subset of polynomials)
+    let mut groups: Vec<(String, Vec<Fr>, Vec<usize>)> = vec![];
+    for k in 0..npoints {
+        let z: Vec<Fr> = (0..nv).map(|_| Fr::rand(rng)).collect();
+        let mut subset: Vec<usize> = (0..npoly).filter(|_| coin(rng)).collect();
+        if subset.is_empty() {
+            subset.push(range(rng, 0, npoly - 1));
+        }
+        groups.push((format!("z{}", k), z, subset));
+    }
+    let mut qs: ark_poly_commit::QuerySet<Vec<Fr>> = ark_poly_commit::QuerySet::new();
+    let mut evals: ark_poly_commit::Evaluations<Vec<Fr>, Fr> = ark_poly_commit::Evaluations::new();
+    let mut positions: Vec<(usize, usize)> = vec![];
+    for (k, (pl, z, subset)) in groups.iter().enumerate() {
+        for &j in subset {
+            qs.insert((format!("p{}", j), (pl.clone(), z.clone())));
+            evals.insert((format!("p{}", j), z.clone()), plain[j].evaluate(z));
+            positions.push((k, j));
         }
     }
-    ctx.rep.case(&format!("pst13 fewer-vars nv={} declared={} hiding={:?}", nv, p.num_vars(), hb), None);
+    // false claims
+    let mut false_groups: Vec<usize> = vec![];
+    let mut left = n_false;
+    while left > 0 && false_groups.len() < positions.len() {
+        let (k, j) = positions[range(rng, 0, positions.len() - 1)];
+        let key = (format!("p{}", j), groups[k].1.clone());
+        let truth = plain[j].evaluate(&groups[k].1);
+        if evals[&key] == truth {
+            evals.insert(key, truth + rand_nonzero(rng));
+            left -= 1;
+        }
+        if !false_groups.contains(&k) {
+            false_groups.push(k);
+        }
+    }
+    let mut sponge = fresh();
+    sponge.absorb_seed(0xC15);
+    let vsponge0 = sponge.clone();
+    let proofs: Vec<Proof<Bls12_381>> = match guarded(|| PC::batch_open(&ck, polys.iter(), comms.iter(), &qs, &mut sponge, states.iter(), Some(&mut *rng))) {
+        Ok(Ok(p)) => p,
+        other => {
+            ctx.rep.expect_fail(id, &fail_sig("open-refused"), &format!("batch_open refused committed polynomials: {:?}", other.err().or(Some("Err".into()))), ptxt);
+            ctx.rep.case(&desc, None);
+            return;
+        }
+    };
+    let pxis = sponge.challenges();
+    let total: usize = groups.iter().map(|g| g.2.len()).sum();
+    if proofs.len() != groups.len() || pxis.len() != total {
+        ctx.rep.count("pst13/batch-unexpected-shape");
+        ctx.rep.case(&desc, None);
+        return;
+    }
+    // per group: model open, witness scalars, individual check on the running verifier sponge
+    let mut off = 0;
+    let mut run_sponge = vsponge0.clone();
+    let mut all_individual = true;
+    let mut css: Vec<Vec<Fr>> = vec![];
+    let mut vss: Vec<Vec<Fr>> = vec![];
+    let mut wss: Vec<Vec<Fr>> = vec![];
+    let mut scalars_ok = true;
+    for (k, (_pl, z, subset)) in groups.iter().enumerate() {
+        let xis = &pxis[off..off + subset.len()];
+        off += subset.len();
+        let gp: Vec<MvPoly> = subset.iter().map(|&j| plain[j].clone()).collect();
+        let gr: Vec<MvPoly> = subset.iter().map(|&j| blinds[j].clone()).collect();
+        let nvp = gp.iter().map(|p| p.num_vars()).max().unwrap_or(0);
+        let nvr = gr.iter().map(|p| p.num_vars()).max().unwrap_or(0);
+        ctx.ses.ask(
+            &format!("{}/open{}", id, k),
+            trap.key_args(Req::new("c15.open"), s)
+                .arg("nvp", wire::nat(nvp))
+                .arg("nvr", wire::nat(nvr))
+                .arg("ps", polys_val(&gp))
+                .arg("z", wire::fes(z))
+                .arg("rs", polys_val(&gr))
+                .arg("xis", wire::fes(xis)),
+            ImplOutcome::Ok(vec![
+                ("w".into(), Expect::G1s(proofs[k].w.clone())),
+                ("rv".into(), Expect::OptFe(proofs[k].random_v)),
+            ]),
+        );
+        let mut ws = vec![];
+        for v in 0..nv {
+            let mut acc = Fr::zero();
+            for (t, _) in subset.iter().enumerate() {
+                match (quotient_at_padded(&gp[t], z, &trap.betas, v), quotient_at_padded(&gr[t], z, &trap.betas, v)) {
+                    (Some(a), Some(b)) => acc += xis[t] * (trap.g * a + trap.gamma * b),
+                    _ => scalars_ok = false,
+                }
+            }
+            ws.push(acc);
+        }
+        if proofs[k].w.len() != nv || ws.iter().zip(proofs[k].w.iter()).any(|(s, w)| g1(*s) != *w) {
+            scalars_ok = false;
+        }
+        let gcomms: Vec<LabeledCommitment<Comm>> = subset.iter().map(|&j| comms[j].clone()).collect();
+        let gvals: Vec<Fr> = subset.iter().map(|&j| evals[&(format!("p{}", j), z.clone())]).collect();
+        let before = run_sponge.challenges().len();
+        let out = guarded(|| PC::check(&vk, gcomms.iter(), z, gvals.clone(), &proofs[k], &mut run_sponge, None));
+        let vx: Vec<Fr> = run_sponge.challenges()[before..].to_vec();
+        let o = match out {
+            Ok(Ok(b)) => ImplOutcome::Ok(vec![("b".into(), Expect::Bool(b))]),
+            Ok(Err(e)) => ImplOutcome::Refuse(err_kind(&e)),
+            Err(a) => ImplOutcome::Refuse(a),
+        };
+        let acc_k = accepted(&o);
+        all_individual &= acc_k;
+        let claim_true = !false_groups.contains(&k);
+        if claim_true && !acc_k {
+            ctx.rep.expect_fail(id, &fail_sig("honest-rejected"), &format!("check rejected the honest proof of point label {} (declared num_vars {:?}): {:?}", k, decl, o), format!("{}# point {} = {}\n", ptxt, k, wire::fes(z)));
+        }
+        if !claim_true && acc_k {
+            ctx.rep.expect_fail(id, "pst13/false-value-accepted", &format!("check accepted a false value at point label {}", k), format!("{}# point {} = {}\n", ptxt, k, wire::fes(z)));
+        }
+        if scalars_ok {
+            ctx.ses.ask(
+                &format!("{}/check{}", id, k),
+                trap.key_args(Req::new("c15.check"), s)
+                    .arg("cs", wire::fes(&subset.iter().map(|&j| c_scalars[j]).collect::<Vec<_>>()))
+                    .arg("z", wire::fes(z))
+                    .arg("vs", wire::fes(&gvals))
+                    .arg("w", wire::fes(&ws))
+                    .arg("rv", wire::opt_fe(&proofs[k].random_v))
+                    .arg("xis", wire::fes(&vx)),
+                o,
+            );
+        }
+        css.push(subset.iter().map(|&j| c_scalars[j]).collect());
+        vss.push(gvals);
+        wss.push(ws);
+    }
+    // batch_check
+    let rs = crate::kzg::replay_u128(rng, groups.len());
+    let mut bsponge = vsponge0.clone();
+    let bout = guarded(|| PC::batch_check(&vk, comms.iter(), &qs, &evals, &proofs, &mut bsponge, &mut *rng));
+    let bxis = bsponge.challenges();
+    let bo = match bout {
+        Ok(Ok(b)) => ImplOutcome::Ok(vec![("b".into(), Expect::Bool(b))]),
+        Ok(Err(e)) => ImplOutcome::Refuse(err_kind(&e)),
+        Err(a) => ImplOutcome::Refuse(a),
+    };
+    let bacc = accepted(&bo);
+    if false_groups.is_empty() && !bacc {
+        ctx.rep.expect_fail(id, &fail_sig("honest-batch-rejected"), &format!("batch_check did not accept an all-true batch (declared num_vars {:?}): {:?}", decl, bo), ptxt.clone());
+    }
+    if !false_groups.is_empty() && bacc {
+        ctx.rep.expect_fail(id, "pst13/batch-false-accepted", &format!("batch_check accepted a batch with false claims at point labels {:?}", false_groups), ptxt.clone());
+    }
+    if matches!(bo, ImplOutcome::Ok(_)) && bacc != all_individual {
+        ctx.rep.expect_fail(id, "pst13/batch-differs-from-individual", &format!("batch_check={} but AND(check_k)={}", bacc, all_individual), ptxt.clone());
+    }
+    if scalars_ok {
+        ctx.ses.ask(
+            &format!("{}/batch", id),
+            trap.key_args(Req::new("c15.batch_check_q"), s)
+                .arg("css", wire::fess(&css))
+                .arg("vss", wire::fess(&vss))
+                .arg("zs", wire::fess(&groups.iter().map(|g| g.1.clone()).collect::<Vec<_>>()))
+                .arg("ws", wire::fess(&wss))
+                .arg("rvs", Val::L(proofs.iter().map(|p| wire::opt_fe(&p.random_v)).collect()))
+                .arg("xis", wire::fes(&bxis))
+                .arg("rs", wire::fes(&rs)),
+            bo,
+        );
+    } else {
+        ctx.rep.count("pst13/batch-scalars-unavailable");
+    }
+    ctx.rep.count(&format!("pst13/batch-points-{}", groups.len()));
+    ctx.rep.count(&format!("pst13/batch-false-{}", false_groups.len()));
+    if declared == Declared::Fewer {
+        ctx.rep.count("pst13/fewer-declared-variables");
+    }
+    ctx.rep.case(
+        &desc,
+        Some(format!("pst13-batch/{}/{}/{}/{:?}/{:?}/{}/{}", nv, d, s, decl, hbs.iter().map(|h| h.is_some()).collect::<Vec<_>>(), groups.len(), false_groups.len())),
+    );
+}
+
+/// `quotient_at` for a polynomial that may be declared over fewer variables than the key: the
+/// quotients of the undeclared variables are zero
+fn quotient_at_padded(f: &MvPoly, z: &[Fr], betas: &[Fr], i: usize) -> Option<Fr> {
+    if i >= f.num_vars() || f.is_zero() {
+        return Some(Fr::zero());
+    }
+    quotient_at(f, z, betas, i)
+}
+
+/// Model-backed PST13 cases of the shared properties (wired from main.rs).
+pub fn run_prop(ctx: &mut Ctx, prop: &str) {
+    match prop {
+        "C01" => {
+            let n = ctx.n(16, 200);
+            for i in 0..n {
+                let mut rng = rng_for(ctx.seed, "C01/pst13-batch", i as u64);
+                let declared = if i % 4 == 3 { Declared::Fewer } else { Declared::Full };
+                batch_case(ctx, &format!("C01/pst13-batch/{}", i), &mut rng, declared, 0, i % 5 == 0);
+            }
+            ctx.flush_model("C01-pst13");
+        }
+        "C02" => {
+            let n = ctx.n(16, 200);
+            for i in 0..n {
+                trapdoor_case(ctx, "C02", i);
+            }
+            ctx.flush_model("C02-pst13");
+            let nb = ctx.n(10, 120);
+            for i in 0..nb {
+                let mut rng = rng_for(ctx.seed, "C02/pst13-batch", i as u64);
+                let declared = if i % 4 == 3 { Declared::Fewer } else { Declared::Full };
+                batch_case(ctx, &format!("C02/pst13-batch/{}", i), &mut rng, declared, 1, i % 5 == 0);
+            }
+            ctx.flush_model("C02-pst13-batch");
+        }
+        "C05" => {
+            let n = ctx.n(20, 250);
+            for i in 0..n {
+                let mut rng = rng_for(ctx.seed, "C05/pst13-batch", i as u64);
+                let declared = if i % 5 == 4 { Declared::Fewer } else { Declared::Full };
+                let n_false = match i % 3 {
+                    0 => 0,
+                    1 => 1,
+                    _ => range(&mut rng, 1, 3),
+                };
+                batch_case(ctx, &format!("C05/pst13-batch/{}", i), &mut rng, declared, n_false, false);
+            }
+            ctx.flush_model("C05-pst13");
+        }
+        _ => {}
+    }
 }
 
 pub fn run(ctx: &mut Ctx) {
@@ -1100,7 +1321,7 @@ pub fn run(ctx: &mut Ctx) {
     run_setup(ctx);
     let n = ctx.n(120, 1500);
     for i in 0..n {
-        trapdoor_case(ctx, i);
+        trapdoor_case(ctx, "C15", i);
         if i % 40 == 39 {
             ctx.flush_model(&format!("C15-pst13-{}", i / 40));
         }
@@ -1111,9 +1332,16 @@ pub fn run(ctx: &mut Ctx) {
         refusal_case(ctx, i);
     }
     ctx.flush_model("C15-pst13-refuse");
-    let np = ctx.n(12, 60);
+    // polynomials declared over fewer variables than the key (0..nv-1; the zero polynomial declared
+    // over 0 variables), with and without hiding, through check AND batch_check: must accept
+    let np = ctx.n(24, 200);
     for i in 0..np {
-        fewer_vars_probe(ctx, i);
+        let mut rng = rng_for(ctx.seed, "C15/pst13-fewer-vars", i as u64);
+        batch_case(ctx, &format!("C15/pst13-fewer-vars/{}", i), &mut rng, Declared::Fewer, 0, i % 2 == 0);
     }
     ctx.flush_model("C15-pst13-fewer-vars");
+    // development aid: `PCV_C15_ALSO=C05 pcv-harness C15` also runs the PST13 cases of that property
+    if let Ok(p) = std::env::var("PCV_C15_ALSO") {
+        run_prop(ctx, &p);
+    }
 }
